@@ -24,12 +24,12 @@ def run(prop, tier, seed, t0, replay):
         doc = json.load(open(replay))
         outs = []
         for c in doc["cases"][:20]:
-            p = subprocess.run([binp, "--one", c["space"], str(c["index"])], stdout=subprocess.PIPE, stderr=subprocess.PIPE, env=env, text=True)
+            p = subprocess.run([binp, "--one", c["space"], str(c["index"])], stdout=subprocess.PIPE, stderr=subprocess.PIPE, env=env, text=True, timeout=600)
             outs.append((p.returncode, p.stdout, p.stderr))
     else:
         def work(w):
-            p = subprocess.run([binp, str(w), str(nw), tier, str(seed)], stdout=subprocess.PIPE, stderr=subprocess.PIPE, env=env, text=True)
-            return p.returncode, p.stdout, p.stderr
+            rc_, out_, err_ = core.run_timed([binp, str(w), str(nw), tier, str(seed)], env, 900 if tier == "quick" else 3600)
+            return rc_, out_, err_
         with ThreadPoolExecutor(nw) as ex:
             outs = list(ex.map(work, range(nw)))
     names = ["distinct_asserted", "evaluations", "rejects_confirmed", "accepts_confirmed", "dontcare", "violations",
@@ -37,7 +37,9 @@ def run(prop, tier, seed, t0, replay):
     obs = {n: 0 for n in names}
     distinct = 0
     for rc, out, err in outs:
-        if rc not in (0, 1):
+        if rc == 124:
+            obs["harness_timeouts"] = obs.get("harness_timeouts", 0) + 1
+        elif rc not in (0, 1):
             kind = "crash"
             m = re.search(r"Assertion `([^']*)'", err)
             if m:
@@ -66,8 +68,8 @@ def run(prop, tier, seed, t0, replay):
     total["obs"] = obs
     total["nontrivial_sigs"] = set(range(obs["distinct_asserted"]))
     if not total["samples"]:
-        p = subprocess.run([binp, "--one", "redirect", str(3 + 80 * 9 + 6400 * 33)], stdout=subprocess.PIPE, stderr=subprocess.PIPE, env=env, text=True)
-        q = subprocess.run([binp, "--one", "redirect", "0"], stdout=subprocess.PIPE, stderr=subprocess.PIPE, env=env, text=True)
+        p = subprocess.run([binp, "--one", "redirect", str(3 + 80 * 9 + 6400 * 33)], stdout=subprocess.PIPE, stderr=subprocess.PIPE, env=env, text=True, timeout=600)
+        q = subprocess.run([binp, "--one", "redirect", "0"], stdout=subprocess.PIPE, stderr=subprocess.PIPE, env=env, text=True, timeout=600)
         total["samples"] = [p.stdout.strip(), q.stdout.strip()]
     rule = ("per stream {type 0-7, 8, -1} x handle x file x path (80 assignments), three streams, four shorthands: 8 192 000 "
             "redirect assignments - thorough enumerates them all, quick every single-stream assignment under all shorthand masks "
